@@ -1,6 +1,8 @@
-(* C17 -- model of Cython/Utility/Buffer.c: __Pyx_BufFmt_CheckString and helpers, restricted to
-   FLAT expected types (a scalar, or a struct all of whose members are scalars / arrays of
-   scalars).  Executable definitions only.
+(* C17 -- model of Cython/Utility/Buffer.c: __Pyx_BufFmt_CheckString and helpers.  The item checker
+   (first part) works on the FLAT member list of the expected type (a scalar, or the scalar members
+   of a struct with their absolute offsets); nested struct dtypes (trees of __Pyx_TypeInfo /
+   __Pyx_StructField, the ctx->head stack of (field, parent_offset) frames) and __pyx_typeinfo_cmp
+   are modelled in the last two sections.  Executable definitions only.
 
    Format string = list of byte values; the C string ends at the first 0 (or at the end of the
    list): position = remaining suffix, [] = the terminating NUL.  A read beyond the NUL is the
@@ -504,3 +506,200 @@ Fixpoint smatch (toks : list tok) (m : mode) (o : Z) (h : list (leaf * Z)) : opt
     | None => None
     end
   end.
+
+(* ======================= nested struct dtypes: the struct stack ======================= *)
+(* __Pyx_TypeInfo as a tree: a scalar (fields == NULL), or typegroup 'S' with sizeof(struct) and its
+   __Pyx_StructField array (member type info, offsetof(struct, member)); the {NULL, NULL, 0}
+   terminator is the end of the list.  Buffer.py asserts len(fields) > 0. *)
+Inductive ttype :=
+| TLeaf (l : leaf)
+| TStruct (size : Z) (fs : list (ttype * Z)).
+
+(* __Pyx_BufFmt_StackElem: (field, parent_offset); field = pointer into a __Pyx_StructField array =
+   the remaining members, current one first ([] = the terminator).  The stack: top (ctx->head)
+   first, the last element is stack[0] = (&ctx->root, 0); [] <-> ctx->head == NULL *)
+Definition frame := (list (ttype * Z) * Z)%type.
+Definition stack := list frame.
+
+(* __Pyx_BufFmt_Init: while (type->typegroup == 'S') push (type->fields, parent_offset 0) *)
+Fixpoint init_push (t : ttype) (st : stack) : res stack :=
+  match t with
+  | TLeaf _ => Ok st
+  | TStruct _ fs =>
+    match fs with
+    | [] => NullDeref                    (* type = type->fields->type = NULL; type->typegroup *)
+    | (t1, _) :: _ => init_push t1 ((fs, 0) :: st)
+    end
+  end.
+Definition s_init (t : ttype) : res stack := init_push t [([(t, 0)], 0)].
+
+(* "++ctx->head; head->field = field->type->fields; head->parent_offset = parent_offset" for the
+   member type t found at absolute offset a.  The code as it is pushes ONE frame and breaks
+   (deep = false); the proposed repair keeps descending while the first member is a struct *)
+Fixpoint push_sub (deep : bool) (t : ttype) (a : Z) (st : stack) : stack :=
+  match t with
+  | TLeaf _ => st
+  | TStruct _ fs =>
+    match fs with
+    | [] => st
+    | (t1, o1) :: _ => let st' := (fs, a) :: st in
+                       if deep then push_sub deep t1 (a + o1) st' else st'
+    end
+  end.
+
+(* after "ctx->head->field = ++field": fs = the members from the new field on.  None = terminator
+   reached (pop).  po = ctx->head->parent_offset, gpo = (ctx->head - 1)->parent_offset;
+   grand = true is the variant that takes the sub-struct offset from the grandparent frame
+   (refutation witness only; the code uses ctx->head->parent_offset) *)
+Fixpoint next_in (deep grand : bool) (fs : list (ttype * Z)) (po gpo : Z) (below : stack) : option stack :=
+  match fs with
+  | [] => None
+  | (TLeaf _, _) :: _ => Some ((fs, po) :: below)
+  | (TStruct _ [], _) :: r => next_in deep grand r po gpo below          (* empty struct: continue *)
+  | (TStruct sz sub, fo) :: _ =>
+    Some (push_sub deep (TStruct sz sub) ((if grand then gpo else po) + fo) ((fs, po) :: below))
+  end.
+
+(* the while (1) loop at the end of one member check: move to the next member, pushing or popping *)
+Fixpoint s_advance (deep grand : bool) (st : stack) : stack :=
+  match st with
+  | [] => []
+  | (fs, po) :: below =>
+    match below with
+    | [] => []                                   (* field == &ctx->root: ctx->head = NULL *)
+    | (_, gpo) :: _ =>
+      match next_in deep grand (tl fs) po gpo below with
+      | Some st' => st'
+      | None => s_advance deep grand below        (* field->type == NULL: --ctx->head; continue *)
+      end
+    end
+  end.
+
+(* what one iteration of the do-loop reads: type = ctx->head->field->type and
+   offset = ctx->head->parent_offset + field->offset.  A struct in this position (only possible
+   without the deep descent) is compared like a scalar of typegroup 'S' (83) *)
+Definition s_cur (st : stack) : option (leaf * Z) :=
+  match st with
+  | ((TLeaf l, fo) :: _, po) :: _ => Some (l, po + fo)
+  | ((TStruct sz _, fo) :: _, po) :: _ => Some (mkleaf 83 sz [], po + fo)
+  | _ => None
+  end.
+
+(* the member stream the checker walks: chunk_loop reads the current member and its offset and
+   advances, nothing else, so the checker on a tree is the flat checker on this stream *)
+Fixpoint walk_from (fuel : nat) (deep grand : bool) (st : stack) : res (list (leaf * Z)) :=
+  match st with
+  | [] => Ok []
+  | _ => match fuel with
+         | O => OutOfFuel
+         | S f => match s_cur st with
+                  | None => NullDeref
+                  | Some x => bind (walk_from f deep grand (s_advance deep grand st))
+                                   (fun l => Ok (x :: l))
+                  end
+         end
+  end.
+
+Fixpoint tnodes (t : ttype) : nat :=
+  match t with
+  | TLeaf _ => 1%nat
+  | TStruct _ fs => S ((fix go (l : list (ttype * Z)) : nat :=
+                          match l with [] => O | (t1, _) :: r => (tnodes t1 + go r)%nat end) fs)
+  end.
+
+Definition walk (deep grand : bool) (t : ttype) : res (list (leaf * Z)) :=
+  bind (s_init t) (walk_from (tnodes t) deep grand).
+
+Definition t_size (t : ttype) : Z := match t with TLeaf l => l_size l | TStruct sz _ => sz end.
+
+Definition check_tree (fx : fixes) (deep grand : bool) (s : list Z) (t : ttype) (itemsize : Z) : res unit :=
+  bind (walk deep grand t) (fun l => check fx s (mktinfo l (t_size t) 0) itemsize).
+
+(* specification side: absolute offsets by structural recursion (C layout: the offset of a nested
+   member is the sum of the offsetof()s on the path) *)
+Fixpoint flatten (t : ttype) (a : Z) : list (leaf * Z) :=
+  match t with
+  | TLeaf l => [(l, a)]
+  | TStruct _ fs => (fix go (l : list (ttype * Z)) : list (leaf * Z) :=
+                       match l with [] => [] | (t1, o1) :: r => flatten t1 (a + o1) ++ go r end) fs
+  end.
+Definition flat_ti (t : ttype) : tinfo := mktinfo (flatten t 0) (t_size t) 0.
+
+(* ======================= __pyx_typeinfo_cmp (Buffer.c TypeInfoCompare) ======================= *)
+(* used by __Pyx_ValidateAndInit_memviewslice when the exporter is itself a Cython memoryview: if the
+   declared type info "equals" the exporter's, the format string is not parsed at all.
+   __Pyx_TypeInfo with all compared members: size, typegroup, is_unsigned, arraysize[0..ndim-1], flags,
+   fields (None = NULL).  (The a == b pointer shortcut is subsumed: the comparison is reflexive.) *)
+Inductive cinfo :=
+| CInfo (size group uns : Z) (arr : list Z) (flags : Z) (fields : option (list (cinfo * Z))).
+
+Fixpoint zlist_eqb (a b : list Z) : bool :=
+  match a, b with
+  | [], [] => true
+  | x :: a', y :: b' => (x =? y) && zlist_eqb a' b'
+  | _, _ => false
+  end.
+(* for (i = 0; i < a->ndim; i++) a->arraysize[i] != b->arraysize[i]  (b->arraysize is zero-filled) *)
+Fixpoint arr_prefix_eqb (a b : list Z) : bool :=
+  match a with
+  | [] => true
+  | x :: a' => (x =? nth 0 b 0) && arr_prefix_eqb a' (tl b)
+  end.
+Definition is_none {A} (o : option A) : bool := match o with None => true | Some _ => false end.
+
+(* fixh = false: the code as it is ("special case for chars": return a->size == b->size);
+   fixh = true: the proposed repair (the special case only waives typegroup / signedness of two
+   scalars with the same number of dimensions; the dimensions are then compared as usual) *)
+Fixpoint ticmp (fixh : bool) (a b : cinfo) {struct a} : bool :=
+  match a, b with
+  | CInfo sa ga ua aa fa fsa, CInfo sb gb ub ab fb fsb =>
+    let ndim_eq := Nat.eqb (length aa) (length ab) in
+    let base_eq := (sa =? sb) && (ga =? gb) && (ua =? ub) && ndim_eq in
+    let is_h := (ga =? 72) || (gb =? 72) in
+    let cont :=                                   (* the part after the first test *)
+      if negb (arr_prefix_eqb aa ab) then false
+      else if ga =? 83 then
+        if negb (fa =? fb) then false
+        else match fsa, fsb with
+             | None, None => true
+             | Some la, Some lb =>
+               (fix go (la : list (cinfo * Z)) (lb : list (cinfo * Z)) : bool :=
+                  match la, lb with
+                  | [], [] => true
+                  | (ta, oa) :: ra, (tb, ob) :: rb => (oa =? ob) && ticmp fixh ta tb && go ra rb
+                  | _, _ => false
+                  end) la lb
+             | _, _ => false
+             end
+      else true in
+    if base_eq then cont
+    else if fixh then
+      (if is_h && (sa =? sb) && ndim_eq && is_none fsa && is_none fsb then cont else false)
+    else (if is_h then (sa =? sb) else false)
+  end.
+
+(* specification: the scalar members with absolute offsets *)
+Definition cleaf := (Z * Z * Z * list Z * Z)%type.     (* group, size, is_unsigned, dims, offset *)
+Fixpoint cflat (a : cinfo) (o : Z) : list cleaf :=
+  match a with
+  | CInfo s g u arr fl fs =>
+    match fs with
+    | Some l => if g =? 83 then
+                  (fix go (l : list (cinfo * Z)) : list cleaf :=
+                     match l with [] => [] | (t, fo) :: r => cflat t (o + fo) ++ go r end) l
+                else [(g, s, u, arr, o)]
+    | None => [(g, s, u, arr, o)]
+    end
+  end.
+(* same size, dimensions and offset; same typegroup and signedness unless one of them is C char *)
+Definition cleaf_compat (x y : cleaf) : bool :=
+  let '(gx, sx, ux, dx, ox) := x in
+  let '(gy, sy, uy, dy, oy) := y in
+  (sx =? sy) && zlist_eqb dx dy && (ox =? oy) && (((gx =? gy) && (ux =? uy)) || (gx =? 72) || (gy =? 72)).
+Fixpoint forall2b {A} (f : A -> A -> bool) (l1 l2 : list A) : bool :=
+  match l1, l2 with
+  | [], [] => true
+  | x :: r1, y :: r2 => f x y && forall2b f r1 r2
+  | _, _ => false
+  end.
+Definition cinfo_compat (a b : cinfo) : bool := forall2b cleaf_compat (cflat a 0) (cflat b 0).
